@@ -463,8 +463,22 @@ fn writer_tour(case: &Value) {
     let actor = problem.fleet.actors[0].clone();
     let mut rc = RouteContext::new(actor);
     for id in case["order"].as_array().unwrap() {
+        use vrp_pragmatic::format::JobTypeDimension;
         let id = id.as_str().unwrap();
-        let job = problem.jobs.all().iter().find(|j| j.dimens().get_job_id().is_some_and(|jid| jid == id)).unwrap().clone();
+        // a vehicle break is the conditional job of type "break"; customer jobs are found by id
+        let job = problem
+            .jobs
+            .all()
+            .iter()
+            .find(|j| {
+                if id == "break" {
+                    j.dimens().get_job_type().is_some_and(|t| t == "break")
+                } else {
+                    j.dimens().get_job_id().is_some_and(|jid| jid == id)
+                }
+            })
+            .unwrap_or_else(|| setup_failed("job of the case not found in the problem", id))
+            .clone();
         let single = job.to_single().clone();
         let place = &single.places[0];
         let time = match &place.times[0] {
@@ -530,6 +544,56 @@ fn setup_failed(what: &str, err: impl std::fmt::Display) -> ! {
     std::process::exit(3)
 }
 
+/// Routing documents through the real reader: error codes if rejected, otherwise every (from, to) entry of the provider.
+fn matrix_read(case: &Value) {
+    use vrp_pragmatic::format::problem::PragmaticProblem;
+    let size = case["size"].as_u64().unwrap() as usize;
+    match (case["problem"].to_string(), vec![case["matrix"].to_string()]).read_pragmatic() {
+        Err(errors) => {
+            let codes: Vec<String> = errors.errors.iter().map(|e| e.code.clone()).collect();
+            println!("{}", serde_json::to_string(&json!({"rejected": codes})).unwrap());
+        }
+        Ok(problem) => {
+            let profile = Profile::default();
+            let mut dur = vec![];
+            let mut dist = vec![];
+            for from in 0..size {
+                for to in 0..size {
+                    dur.push(problem.transport.duration_approx(&profile, from, to));
+                    dist.push(problem.transport.distance_approx(&profile, from, to));
+                }
+            }
+            println!("{}", serde_json::to_string(&json!({"durations": dur, "distances": dist})).unwrap());
+        }
+    }
+}
+
+/// `Statistic + Statistic` through the public operator.
+fn statistic_sum(case: &Value) {
+    use vrp_pragmatic::format::solution::{Statistic, Timing};
+    let mk = |v: &Value| Statistic {
+        cost: v["cost"].as_f64().unwrap(),
+        distance: v["distance"].as_i64().unwrap(),
+        duration: v["duration"].as_i64().unwrap(),
+        times: Timing {
+            driving: v["driving"].as_i64().unwrap(),
+            serving: v["serving"].as_i64().unwrap(),
+            waiting: v["waiting"].as_i64().unwrap(),
+            break_time: v["break_time"].as_i64().unwrap(),
+            commuting: v["commuting"].as_i64().unwrap(),
+            parking: v["parking"].as_i64().unwrap(),
+        },
+    };
+    let sum = mk(&case["a"]) + mk(&case["b"]);
+    println!(
+        "{}",
+        serde_json::to_string(&json!({"cost": sum.cost, "distance": sum.distance, "duration": sum.duration, "driving": sum.times.driving,
+            "serving": sum.times.serving, "waiting": sum.times.waiting, "break_time": sum.times.break_time,
+            "commuting": sum.times.commuting, "parking": sum.times.parking}))
+        .unwrap()
+    );
+}
+
 fn main() {
     let path = std::env::args().nth(1).expect("usage: verif-replay <case.json>");
     let case: Value = serde_json::from_str(&std::fs::read_to_string(path).unwrap()).unwrap();
@@ -541,6 +605,12 @@ fn main() {
     }
     if case["kind"] == "checker" {
         return checker(&case);
+    }
+    if case["kind"] == "matrix_read" {
+        return matrix_read(&case);
+    }
+    if case["kind"] == "statistic_sum" {
+        return statistic_sum(&case);
     }
     if case["kind"] == "goal_order" {
         return goal_order(&case);
